@@ -51,7 +51,7 @@ PROPS = {
             "the model output on this line is therefore the unique value the property allows, and the "
             "implementation returned something else.",
         "exhaustive_quick": False,
-        "trusted_base": ["i128/u128 ranges are not modelled: callers keep |value| < 2^100 (generator respects this)"],
+        "trusted_base": ["i128/u128 ranges are not modelled (unbounded integers): callers keep |value| < 2^100 (generator respects this), except EpochNanoseconds::try_from, whose model takes the mathematical value of the argument and whose lines go up to the type limits"],
         "assumptions": ["the exhaustive part covers x in [-300,300] x inc in [1,30] x 9 modes through the verif_hooks rounder"],
     },
     "C10": {
@@ -396,7 +396,8 @@ PROPS = {
                       "month code), C16_year_month_first_of_month (whenever to_plain_year_month "
                       "succeeds the stored reference date is day 1 of the date's own calendar year and month), "
                       "C16_japanese_nonpositive_year (the one exception, proved as a fact of the code), C16_year_guard (years "
-                      "beyond +-300000 are RangeErrors before the library is asked), C16_with_calendar_keeps_iso. For ALL calendars: "
+                      "beyond +-300000 are RangeErrors before the library is asked), C16_with_calendar_keeps_iso / _keeps_datetime / "
+                      "_keeps_instant (with_calendar of a date, a date-time, a zoned date-time rebuilds the same value). For ALL calendars: "
                       "C16_era_names_accepted (every era name handed to the library is a code that calendar accepts), "
                       "C16_reported_eras_accepted, C16_alias_unambiguous / C16_alias_resolves, C16_identifier_case_insensitive / "
                       "_lower_idem / _canonical / _roundtrip. HEBREW (Props/C16Hebrew.lean; the library's molad arithmetic, "
@@ -408,7 +409,11 @@ PROPS = {
                       "the rules wherever no molad falls exactly on Saturday 18 h 0 p in the estimated year or its neighbours, and "
                       "is a week early exactly there), C16_hebrew_fields_bounds_partial / _consecutive_days_partial / "
                       "_rebuild_partial / _from_partial_partial / _no_assertion_partial (the C16 clauses and the absence of the "
-                      "library's debug-assertion panic for the code as written, under that hypothesis), C16_hebrew_gate_defect "
+                      "library's debug-assertion panic for the code as written, under that hypothesis), C16_hebrew_exceptional_years "
+                      "(in Temporal's range exactly the Hebrew years -114910, 75795 and 193152 have such a molad - 765433 is "
+                      "invertible modulo 181440 - and every day outside three windows of three years each meets the hypothesis), "
+                      "C16_hebrew_in_range (so: the clauses for every ISO date of Temporal's range outside those windows), "
+                      "C16_hebrew_gate_defect "
                       "(the excluded case is real: Hebrew year 75795 - known finding C16-hebrew-molad-at-gate). "
                       "Tie: every getter, the consecutive-day pair, the three rebuild routes, "
                       "from_partial on random field subsets and on every (calendar, era alias, era year around each bound) cell, "
@@ -449,7 +454,9 @@ PROPS = {
                       "round, with, from_partial, until or since returns is well-formed and inside the range (InRange, "
                       "isoDtWithinValidLimits, |ns| <= 8.64e21, IsoTime.isValid, Dur.ValidSpec, year-month limits), for all "
                       "arguments; C02_*_boundary place every boundary exactly (last representable value accepted, next one a "
-                      "RangeError, both overflow modes); C02_instant_add_exact (with C04/C05/C06/C09's exact-arithmetic theorems) "
+                      "RangeError, both overflow modes); C02_epoch_ns_conversions (EpochNanoseconds::try_from of an i128, a u128 - any value "
+                      "up to 2^128-1, nothing wraps into range - and an integral double is the value itself or a RangeError); "
+                      "C02_instant_add_exact (with C04/C05/C06/C09's exact-arithmetic theorems) "
                       "says a result is the exact value or a RangeError, never clamped or wrapped. Tie: a boundary suite (c02: every "
                       "type, operands within a few units of each limit and far beyond) plus the arithmetic suites, on a build with "
                       "overflow checks AND on a release build without them (wrapping arithmetic).",
